@@ -14,7 +14,7 @@ from vlib.coqlit import *
 
 ID = "C16"
 COQ_PROPS = "Props/C16.v"
-THEOREMS = ["C16_roundtrip", "C16_blank", "C16_malformed", "C16_prot", "C16_csa_merge", "C16_csa_merge_other", "C16_dict_set",
+THEOREMS = ["C16_roundtrip", "C16_parse_line_sound", "C16_bare_accepts_iff", "C16_blank", "C16_none_sound", "C16_malformed", "C16_prot", "C16_csa_merge", "C16_csa_merge_other", "C16_dict_set",
             "C16_int_dec", "C16_int_hex", "C16_float_repr", "C16_str_single_quote", "C16_str_double_quote", "C16_bare_1e5_is_hex"]
 ALLOWED_AXIOMS = []
 TRUSTED_BASE = [
